@@ -11,7 +11,7 @@ From QD Require Import GenNum.
 NUM_TIES = {
     "C01": ["sym_forward", "qbytes_dequantize", "quantize_activation"],
     "C02": ["group", "ungroup", "affine_forward", "max_optimize", "aff_opt_call", "qbits_dequantize"],
-    "C03": ["absmax_optimize", "max_optimize", "absmax_scale", "axis_to_dim", "sym_opt_call", "aff_opt_call", "group", "quantize_weight"],
+    "C03": ["absmax_optimize", "max_optimize", "absmax_scale", "axis_to_dim", "sym_opt_call", "aff_opt_call", "group", "quantize_weight", "sym_forward", "qbytes_dequantize"],
     "C14": ["quantize_weight", "quantize_activation", "sym_forward", "affine_forward", "group", "sym_opt_call", "aff_opt_call", "auto_group_size"],
     "C16": ["sym_forward", "affine_forward", "absmax_optimize", "max_optimize", "absmax_scale", "qbytes_dequantize", "qbits_dequantize", "quantize_weight"],
     "C12": ["updated_scale", "absmax_scale"],
